@@ -76,15 +76,17 @@ def _pairwise_partners(model, ranks, n):
     return out
 
 
-def posterior(model, teams, ranks, beta, kappa, X, gamma=None, pair_scale=1, details=None):
+def posterior(model, teams, ranks, beta, kappa, X, gamma=None, pair_scale=1, details=None, agg=None):
     """teams: [[(mu, sigma), ...], ...] with sigma already tau-inflated;
     ranks: list of rank values (smaller is better) - None means 0..n-1.
-    Returns [[(mu', sigma'), ...], ...] in the order given."""
+    Returns [[(mu', sigma'), ...], ...] in the order given.
+    agg = (theta, s): the team aggregates given directly (teams of any size: `teams` then lists
+    only the members whose posterior is wanted; theta_i, s_i are the sums over *all* members)."""
     n = len(teams)
     if ranks is None:
         ranks = list(range(n))
     gamma = gamma or _default_gamma(X)
-    theta, s = aggregates(teams)
+    theta, s = agg if agg is not None else aggregates(teams)
     omega, delta = [], []
     if model == "PlackettLuce":
         c = X.sqrt(_sum(s[i] + beta * beta for i in range(n)))
